@@ -33,7 +33,8 @@ LEVEL_TEXT = ("Exploration over programs: thousands of random pipelines (1-8 ste
               " Generated trees come in several representations of the same values (strided, other dtypes / lists, one array as two columns, read-only where the harness never writes) and half of them were queried, a third put through aborted operations, before use. cat_tree(t, t, ...) with one object in both positions; steps on trees with read-only columns."
               " Pipelines with forced renumbering / pruning / file steps on trees of 255 .. 4097 nodes."
               " Pipelines that start from a BranchTree instance (its remembered branches compared for shared storage); removal sets with hundreds of generations below them."
-              " The first steps of every pipeline are repeated on twins under custom column names; one big branched, permuted tree (50 000 .. 100 000 nodes) through the renumbering operations; Transforms compared with its members taken out by index.")
+              " The first steps of every pipeline are repeated on twins under custom column names; one big branched, permuted tree (50 000 .. 100 000 nodes) through the renumbering operations; Transforms compared with its members taken out by index."
+              " After every step the poisoned result is followed by the same operation once more (same untouched inputs, same content).")
 LEVEL_NOTE = ("Contracts cannot see a reference bound before installation that is not a module "
               "attribute; evaluation counters per entry point make that visible (a zero count is "
               "inconclusive). NaN-producing Normalizer inputs (constant columns) are not generated.")
